@@ -363,3 +363,5 @@ def run(chk):
     run_l2(chk, P)
     run_l3(chk, P)
     run_m1(chk, P)
+    from . import clones
+    clones.rule_defuse(chk, 'D1', 'D2', ('mgr',), floor=50)
